@@ -94,6 +94,11 @@ def gen_decls(rng, names, vis, n_items, allow=("enum", "struct", "impl", "servic
                 if rng.random() < 0.12 and f["type"][0] in ("u", "i", "f32", "f64"):
                     f["range"] = [0.0, rng.randint(1, 100) + 0.5]
                 fields.append(f)
+            if rng.random() < 0.3 and len(fields) > 1:
+                # ids not in declaration order (the wire order is by id, the source order is free)
+                ids = rng.sample(range(0, 2 * len(fields) + 1), len(fields))
+                for f, i_ in zip(fields, ids):
+                    f["id"] = i_
             d = {"kind": "struct", "name": names.struct(), "fields": fields}
             vis["structs"].append(d["name"])
         elif k == "impl":
@@ -125,7 +130,10 @@ def gen_decls(rng, names, vis, n_items, allow=("enum", "struct", "impl", "servic
             for mi in range(rng.randint(1, 3)):
                 ms.append({"name": f"do_{rng.choice(S.WORDS)}{mi}", "id": mi,
                            "input": rng.choice(vis["structs"]), "output": rng.choice(vis["structs"])})
-            d = {"kind": "service", "name": names.service(), "id": rng.randint(0, 200), "methods": ms}
+            sname_ = names.service()
+            if rng.random() < 0.15 and vis["enums"]:
+                sname_ = rng.choice(vis["enums"])       # a service named like an enum: legal, the kinds have separate name spaces
+            d = {"kind": "service", "name": sname_, "id": rng.randint(0, 200), "methods": ms}
             vis["services"].append(d["name"])
         else:
             fl = []
@@ -133,7 +141,10 @@ def gen_decls(rng, names, vis, n_items, allow=("enum", "struct", "impl", "servic
                 fl.append(["services", [{"ident": x} for x in rng.sample(vis["services"], rng.randint(1, min(2, len(vis["services"]))))]])
             if not fl or rng.random() < 0.5:
                 fl.append(["address", rng.randint(1, 250)])
-            d = {"kind": "device", "name": names.device(), "fields": fl}
+            dname_ = names.device()
+            if rng.random() < 0.15 and vis["structs"]:
+                dname_ = rng.choice(vis["structs"])     # a device named like a struct: legal
+            d = {"kind": "device", "name": dname_, "fields": fl}
         out.append(d)
     return out
 
@@ -168,8 +179,8 @@ def gen_tree(rng, max_depth=3, budget=None, same_basename_p=0.06):
         for _ in range(nchild):
             for _try in range(8):
                 comps = [rng.choice(MODWORDS) for _ in range(weighted(rng, [(1, 5), (2, 3), (3, 1.5)]))]
-                if basenames and rng.random() < same_basename_p:
-                    comps[-1] = rng.choice(basenames)
+                if rng.random() < same_basename_p:
+                    comps[-1] = rng.choice(basenames + ["main", os.path.splitext(os.path.basename(filerel))[0]])
                 rel = os.path.normpath(os.path.join(dirpath, *comps)) + ".fcp"
                 if rel not in used_files:
                     break
@@ -195,6 +206,17 @@ def gen_tree(rng, max_depth=3, budget=None, same_basename_p=0.06):
                 made += 1
         if not any(d["kind"] == "struct" for d in items if d["kind"] != "mod") and depth > 1:
             items.extend(gen_decls(rng, names, vis, 1, allow=()))
+        # a device declared inside a module may carry the name of a struct/enum the importer already knows at that point
+        # (declared or imported earlier): devices and types have separate name spaces
+        known = []
+        for it in items:
+            if it["kind"] == "mod":
+                devs = [d for d in it["node"]["items"] if d["kind"] == "device"]
+                if known and devs and rng.random() < 0.35:
+                    rng.choice(devs)["name"] = rng.choice(known)
+                known += it["node"]["exports"]["structs"] + it["node"]["exports"]["enums"]
+            elif it["kind"] in ("struct", "enum"):
+                known.append(it["name"])
         return {"path": None, "file": filerel, "items": items, "exports": vis}
 
     root = build(1, "", "main.fcp")
@@ -252,6 +274,10 @@ def write_files(base: Path, files: dict):
     for rel, text in files.items():
         p = base / rel
         p.parent.mkdir(parents=True, exist_ok=True)
+        if p.is_file():
+            with open(p, newline="") as f:
+                if f.read() == text:
+                    continue          # untouched files keep their inode and mtime, like files an editor did not save
         with open(p, "w", newline="") as f:
             f.write(text)
 
